@@ -321,7 +321,7 @@ def _num_equal(a, b):
         return False
 
 
-def sem_equal(given, held):
+def sem_equal(given, held, maybe_numeric=False):
     """is the held leaf an acceptable rendering of the given leaf?"""
     if isinstance(given, EFLRItem) or isinstance(held, EFLRItem):
         return given is held
@@ -338,12 +338,28 @@ def sem_equal(given, held):
             _, _, pt = str_parse(given)
             return pt != '~' and pt == dt_fields(held)
         if isinstance(held, (int, float)) and not isinstance(held, bool):
-            for f in (int, float):
-                try:
-                    if _num_equal(f(given), held):
-                        return True
-                except (ValueError, OverflowError):
-                    pass
+            if not maybe_numeric:
+                # a numeric attribute: whatever int() / float() make of the text
+                for f in (int, float):
+                    try:
+                        if _num_equal(f(given), held):
+                            return True
+                    except (ValueError, OverflowError):
+                        pass
+                return False
+            # an attribute that takes text or numbers (`convert_maybe_numeric`): text is kept as text, except a numeral -
+            # integer notation gives that integer, notation with a decimal point that float; words that float() happens
+            # to parse ('inf', 'nan', '1e3') are text
+            try:
+                if type(held) is int and _num_equal(int(given), held):
+                    return True
+            except (ValueError, OverflowError):
+                pass
+            try:
+                if type(held) is float and '.' in given and _num_equal(float(given), held):
+                    return True
+            except (ValueError, OverflowError):
+                pass
             return False
         return False
     if isinstance(given, (bool, int, float)):
@@ -360,7 +376,7 @@ def sem_equal(given, held):
     return False
 
 
-def fidelity_problem(given, held, multivalued):
+def fidelity_problem(given, held, multivalued, maybe_numeric=False):
     g = flat(given) if isinstance(given, (list, tuple)) else [given]
     if held is None:
         return None if given is None else f'assigned {given!r}, attribute holds nothing'
@@ -368,7 +384,7 @@ def fidelity_problem(given, held, multivalued):
     if len(g) != len(h):
         return f'assigned {len(g)} value(s) {given!r}, attribute holds {len(h)}: {held!r}'
     for a, b in zip(g, h):
-        if not sem_equal(a, b):
+        if not sem_equal(a, b, maybe_numeric):
             return f'assigned {a!r} (in {given!r}), attribute holds {b!r}'
     return None
 
@@ -384,20 +400,20 @@ def synthetic_set(attr_bytes, label):
     return b'\xf0' + ident_bytes('T') + b'\x30' + ident_bytes(label) + b'\x70' + b'\x01\x00' + ident_bytes('X') + attr_bytes
 
 
-def token_matches(given, tok):
+def token_matches(given, tok, maybe_numeric=False):
     """does the decoded value token render the given leaf?"""
     try:
         if tok[0] == 'd':
             held = struct.unpack('>d', struct.pack('>Q', int(tok[1:])))[0]
             if isinstance(given, float):
                 return f64bits(given) == int(tok[1:]) or (math.isnan(given) and math.isnan(held))
-            return sem_equal(given, held)
+            return sem_equal(given, held, maybe_numeric)
         if tok[0] == 'f':       # single precision
             held = struct.unpack('>f', struct.pack('>I', int(tok[1:])))[0]
             return isinstance(given, (int, float, bool)) and (held == given or (held != held and given != given)
                                                               or held == struct.unpack('>f', struct.pack('>f', given))[0])
         if tok[0] == 'i':
-            return sem_equal(given, int(tok[1:])) or (isinstance(given, bool) and int(given) == int(tok[1:]))
+            return sem_equal(given, int(tok[1:]), maybe_numeric) or (isinstance(given, bool) and int(given) == int(tok[1:]))
         if tok[0] == 't':
             text = bytes.fromhex(tok[1:]).decode('ascii') if tok[1:] != '-' else ''
             if isinstance(given, ValidatorEnum):
@@ -584,7 +600,8 @@ def run_stream(chk, model, bres, R, n_per_attr, schema_rows, stream='convert', h
             chk.fail(f'{stream}:component-count', dict(case, attribute_bytes=bts),
                      f'assigned {len(g)} value(s) {given!r}; the component announces {cnt} and carries {len(toks)}')
             continue
-        bad = [(a, t) for a, t in zip(g, toks) if not token_matches(a, t)]
+        mn_ = convs.get((case['set_type'], case['label']), '').startswith('maybeNumeric')
+        bad = [(a, t) for a, t in zip(g, toks) if not token_matches(a, t, mn_)]
         if bad:
             chk.fail(f'{stream}:component-value', dict(case, attribute_bytes=bts, representation_code=rc),
                      f'assigned {bad[0][0]!r} (in {given!r}); a reader decodes {bad[0][1]} under code {rc}')
@@ -594,7 +611,7 @@ def run_stream(chk, model, bres, R, n_per_attr, schema_rows, stream='convert', h
         chk.count(f"{stream}:{row[2]}:{'/'.join(sorted(set(outs)))}")
         # independent oracle: what an accepted assignment left in the attribute
         if last_ok is not None:
-            p = fidelity_problem(last_ok[1], attr.value, row[4])
+            p = fidelity_problem(last_ok[1], attr.value, row[4], convs.get((case['set_type'], case['label']), '').startswith('maybeNumeric'))
             if p:
                 chk.fail(f'{stream}:accepted-value-altered', dict(case, held=repr(attr.value)), p)
         if 'unmodelled' in rep or rep == 'unknown-attribute':
